@@ -126,7 +126,7 @@ def run(R, tier):
                     continue
                 fmtcell = Cell(TOP, "fmt")
                 vals = {"fmt": RefV(fmtcell, (), True), "result": fdai.mk_ok(fdai.UNIT), "has_header": K(hh), "has_data": K(hd)}
-                ucell = Cell(AggV(ru_adt, {i: vals[n] for i, n in enumerate(fields)}), "unit")
+                ucell = Cell(AggV(ru_adt, {i: vals.get(n, TOP) for i, n in enumerate(fields)}), "unit")
                 res = eng.run(b, [RefV(ucell, (), True), SymV("payload", "payload")])
                 seqs = set()
                 flags_ok = True
@@ -232,3 +232,7 @@ def run(R, tier):
                 bad = E.check_cases(em, b, E.list_cases((1, 2, 3, 5)))
                 R.check(not bad, "R10.8", "list:%s" % s.split("<")[0].split("::")[-1], "elements in order, one `,` between neighbours and nowhere else", "; ".join(bad[:3]), where=b.span)
     R.floor("R10.8", "list writers", n_l, 2)
+
+    # ---- R10.9 an error-queue item is two data elements: code `,` quoted text - on every arm of its writer ---------------------
+    from . import c09
+    c09.check_error_writer(R, P, u, E.engine(), E, rule="R10.9")
